@@ -28,7 +28,7 @@ THEOREMS = [
     "C11_parents_repaired",
 ]
 RULE = (
-    "hand-written corpus (witnesses of KF-C11-1..4, P18, P25, refusals, three levels) + seeded scenes: parentless "
+    "hand-written corpus (witnesses of the fixed findings KF-C11-1..4, P18, P25, refusals, three levels) + seeded scenes: parentless "
     "term/If nodes, children of a Workflow, children of a macro inside a workflow or parentless, children of a "
     "macro nested in a macro (the macro's sub-graph is generated per case), random data DAG per level (3 input "
     "slots, 0..2 connections), optional DAG-wiring of the owners beforehand, random hand-made signals (a >> b, "
@@ -51,7 +51,7 @@ TRUSTED = [
     "a macro pulled over as a sibling runs as one unit (model: one node that fails iff something inside fails); "
     "targets are leaf nodes",
     "the model carries 8 variants (3 switches); the implementation has to agree with one and the same variant "
-    "on every case of a run (now V000 = pinned; V111 = all proposed repairs)",
+    "on every case of a run (V000 = the tree as pinned; V111 = with the fix commits 5561838 + 768848e, the tree now)",
 ]
 ASSUMPTIONS = [
     "wrapped functions are deterministic and touch nothing but their arguments",
